@@ -139,3 +139,33 @@ func verifHarness_C03_DedupWithBackgroundLearning() {
 		vsC03Same(r)
 	}
 }
+
+// skip_cache_lookup is a hint about the Action Cache only: a request carrying
+// it is merged with an in-flight execution of the same action like any other.
+func verifHarness_C03_SkipCacheLookup() {
+	rt.PreemptionBound(0)
+	steps := 3
+	if rt.Tier() > 0 {
+		steps = 4
+	}
+	rt.Bound("steps", steps)
+	rt.MustCover("dedup:attached", "dedup:fresh")
+	r := vsNewRig(1)
+	r.skipCacheLookups = true
+	p := vsPlatform("os", "linux")
+	rt.Assert(r.bq.RegisterPredeclaredPlatformQueue(digest.EmptyInstanceName, p, nil, 0, 0, []uint32{0}) == nil, "queue registered")
+	h := r.addAction(1, p, false)
+	r.addClient("", h, 0, "inv-a")
+	r.addClient("", h, 0, "inv-b")
+	r.addWorker("", p, 0, "w0")
+	o := &vsOpts{
+		maxExecs:  1,
+		idleKinds: []int{vsSyncIdle},
+		syncKinds: []int{vsSyncCompletedOK},
+		maxSyncs:  2,
+	}
+	for k := 0; k < steps; k++ {
+		r.drive(o, 1)
+		vsC03Same(r)
+	}
+}
